@@ -88,9 +88,16 @@ func runC17(c c17Case) Verdict {
 		return failf("a script with the command %s does not load: %v", cmdSrc, err)
 	}
 	var calls []string
+	// the host keeps what it was given (a command queue worked off later, a log): the slices and values stay what they were
+	type kept struct {
+		args   []*variable.Value
+		asSeen string
+	}
+	var keptArgs []kept
 	handler := func(name string) ysgo.YarnSpinnerCommand {
 		return func(args []*variable.Value) <-chan error {
 			calls = append(calls, showCall(name, toMvals(args)))
+			keptArgs = append(keptArgs, kept{args, showCall(name, toMvals(args))})
 			ch := make(chan error, 1)
 			ch <- nil
 			return ch
@@ -170,6 +177,12 @@ func runC17(c c17Case) Verdict {
 		vars["n"] = numVal(vars["n"].N*2 + 1)
 		vars["b"] = boolVal(!vars["b"].B)
 		vars["s"] = strVal(vars["s"].S + "?")
+	}
+	for i, k := range keptArgs {
+		name := k.asSeen[:strings.Index(k.asSeen, "(")]
+		if now := showCall(name, toMvals(k.args)); now != k.asSeen {
+			return failf("%s: the arguments of invocation %d were %s when the handler ran; the slice the handler kept reads %s after later commands ran", cmdSrc, i+1, k.asSeen, now)
+		}
 	}
 	types := map[byte]bool{}
 	for _, v := range want {
